@@ -340,7 +340,7 @@ def canon_model(resp):
 		edges = [{k: ([unfr(x) for x in v] if isinstance(v, list) else unfr(v)) for k, v in e.items()} for e in st['edges']]
 		tr.append({'nodes': nodes, 'edges': edges})
 	return {'trace': tr, 'total': unfr(resp['total']), 'oseq': resp['orderSeq'], 'sseq': resp['shipSeq'],
-			'orderOK': resp['orderOK'], 'netWF': resp.get('netWF', True), 'initOK': resp.get('initOK', True), 'visitOK': resp.get('visitOK', True), 'exoOK': resp.get('exoOK', True)}
+			'orderOK': resp['orderOK'], 'netWF': resp.get('netWF', True), 'initOK': resp.get('initOK', True), 'allVisited': resp.get('allVisited', True), 'visitOK': resp.get('visitOK', True), 'exoOK': resp.get('exoOK', True)}
 
 
 def compare_traces(spec, py, mo, fields=None):
